@@ -15,14 +15,21 @@
 (*   three    3 items, reduced patterns, names by position                  *)
 (*   gaps     1..3 items with empty list items (";;", "; ;") before, between, after *)
 (*   names    1 item, every name of the pool (known names in several cases, near misses) *)
-(*   sweep    256 byte values inside a name / inside a token value / right  *)
-(*            after a token value / right after a quoted value, 3 modes     *)
+(*   names2   2 items, every pair of names (Types = OR of both)             *)
+(*   sweep    256 byte values at 9 positions (inside a name / a token value, *)
+(*            right after a token / quoted value, first byte of a name / a  *)
+(*            value, after name+blank, value+blank, separator), 3 modes     *)
 (*   resolve  fn records for URIParamResolve                                *)
-(*  sub-slices kept apart because the real code DIFFERS from the intended   *)
-(*  reading there (cfgs MC_GenParams_viol_*.cfg, see the final comments):   *)
-(*   zero     lists of 0 items: "", ";", ";;", "; ;"                        *)
-(*   septerm  an empty trailing item directly followed by the terminator    *)
+(*   zero     lists of 0 items ("", ";", ";;", "; ;") ended by the end of   *)
+(*            header / input.  tokparam: cfg MC_GenParams_zero_tp.cfg (ok). *)
+(*  Sub-slices kept apart because the REAL CODE DIFFERS from the intended   *)
+(*  reading there (cfgs MC_GenParams_viol_*.cfg; see FINDINGS at the end):  *)
+(*   zero     (uriparams / urihdrs) the wrappers count one parameter        *)
+(*   septerm  empty item(s) directly followed by the terminator byte, and   *)
+(*            the terminator as the very first byte of the list             *)
 (*   allempty All of a parameter with an EMPTY value and white space around "=" *)
+(*  tokparam records: the first parameter (fresh object at offset 0) and,   *)
+(*  for k > 1, the k-th parameter (fresh object at its first name byte).    *)
 (***************************************************************************)
 EXTENDS GenParams, TLC, Json
 
@@ -116,14 +123,16 @@ G2 == 0..1
 S1 == ShapesRed({0}, VK5, 1)   \* 5 shapes
 S2 == ShapesRed({0}, VK5, 2)   \* 10 shapes
 
-ChoicesOne(kind)   == Prod(kind, {<<0, 0>>}, Tup1(ShapesFull({1, 2}, VK5)))
+ChoicesOne(kind)   == Prod(kind, {<<0, 0>>}, Tup1(ShapesFull({1, 2, 3}, 0..5)))
 ChoicesTwo(kind)   == LET S == ShapesRed({1, 2, 3}, VK5, NPat) IN Prod(kind, {<<0, 0, 0>>}, S \X S)
 ChoicesThree(kind) == LET S == ShapesRed({0}, VK5, NPat) IN Prod(kind, {<<0, 0, 0, 0>>}, S \X S \X S)
-ChoicesGaps(kind)  == Prod(kind, G4 \X G4, Tup1(S2))
-                 \cup Prod(kind, G4 \X G4 \X G4, S1 \X S1)
-                 \cup Prod(kind, G2 \X G2 \X G2 \X G2, S1 \X S1 \X S1)
+ChoicesGaps(kind)  == Prod(kind, G4 \X G4, Tup1(ShapesRed({0}, VK5, 4)))
+                 \cup Prod(kind, G4 \X G4 \X G4, S2 \X S2)
+                 \cup Prod(kind, G2 \X G4 \X G4 \X G2, S1 \X S1 \X S1)
 ChoicesNames(kind) == { x \in Prod(kind, {<<0, 0>>}, Tup1(ShapesRed(1..NUP, {VMissing, VMarks, VQEsc}, 1))) :
                           Ss(x)[1][1] <= NNames(Fl(x)) }
+ChoicesNames2(kind) == { x \in Prod(kind, {<<0, 0, 0>>}, LET S == ShapesRed(1..NUP, {VMissing}, 1) IN S \X S) :
+                          Ss(x)[1][1] <= NNames(Fl(x)) /\ Ss(x)[2][1] <= NNames(Fl(x)) }
 ChoicesZero(kind)  == Prod(kind, Tup1(G4), {<<>>})
 ChoicesSepTerm(kind) == Prod(kind, {0} \X (1..3), Tup1(S2)) \cup Prod(kind, {0} \X {0} \X (1..3), S1 \X S1)
 ChoicesAllEmpty(kind) == Prod(kind, {<<0, 0>>}, Tup1(ShapesFull({1}, {VEmpty})))
@@ -132,9 +141,12 @@ ChoicesAllEmpty(kind) == Prod(kind, {<<0, 0>>}, Tup1(ShapesFull({1}, {VEmpty})))
 TermAfterSep(x) == En(x) = "term" /\ Gs(x)[Len(Gs(x))] > 0
 Lists == CASE Part = "one" -> ChoicesOne(Kind) [] Part = "two" -> ChoicesTwo(Kind) [] Part = "three" -> ChoicesThree(Kind)
            [] Part = "gaps" -> { x \in ChoicesGaps(Kind) : ~TermAfterSep(x) } [] Part = "names" -> ChoicesNames(Kind)
-           [] Part = "zero" -> ChoicesZero(Kind) [] Part = "septerm" -> { x \in ChoicesSepTerm(Kind) : En(x) = "term" }
+           [] Part = "names2" -> ChoicesNames2(Kind)
+           [] Part = "zero" -> { x \in ChoicesZero(Kind) : En(x) # "term" }
+           [] Part = "septerm" -> { x \in ChoicesSepTerm(Kind) \cup ChoicesZero(Kind) : En(x) = "term" }
            [] Part = "allempty" -> ChoicesAllEmpty(Kind)
-Choices == CASE Part = "sweep" -> {"up", "uh", "pl"} \X {"name", "val", "vend", "qend"} \X (0..255)
+SweepPos == {"name", "val", "vend", "qend", "nstart", "aname", "vstart", "aval", "asep"}
+Choices == CASE Part = "sweep" -> {"up", "uh", "pl"} \X SweepPos \X (0..255)
              [] Part = "resolve" -> 1..(NUP + 3)
              [] OTHER -> { x \in Lists : SpOk(En(x), Gs(x), Ss(x)) }
 
@@ -150,9 +162,10 @@ ListOf(x) ==
 
 \* ---- oracle records ----
 Cfg(kind, flags, pcap) == [kind |-> kind, start |-> 0, flags |-> flags, hcap |-> -1, ccap |-> -1, pcap |-> pcap]
-Rec(kind, flags, pcap, wire, err, offs, errs, obs) ==
-  [k |-> kind, cfg |-> Cfg(kind, flags, pcap), wire |-> wire, cuts |-> <<Len(wire)>>, offs |-> offs,
+RecAt(kind, flags, pcap, start, wire, err, offs, errs, obs) ==
+  [k |-> kind, cfg |-> [Cfg(kind, flags, pcap) EXCEPT !.start = start], wire |-> wire, cuts |-> <<Len(wire)>>, offs |-> offs,
    err |-> err, errs |-> errs, obs |-> obs, src |-> "decl", prop |-> "C17"]
+Rec(kind, flags, pcap, wire, err, offs, errs, obs) == RecAt(kind, flags, pcap, 0, wire, err, offs, errs, obs)
 \* the whole list through ParseAllURIParams / ParseAllURIHdrs
 ListRec(kind, flags, pcap, L) ==
   Rec(kind, flags, pcap, L.wire, L.err, L.offs, <<>>,
@@ -163,6 +176,10 @@ FirstRec(flags, L) ==
   IF L.n = 0 THEN Rec("tokparam", flags, -1, L.wire, EMPTY, -1, <<L.err>>, NoParamObs)
   ELSE IF L.n = 1 THEN Rec("tokparam", flags, -1, L.wire, L.err, L.offs, <<>>, ParamObs(L.ps[1]))
   ELSE Rec("tokparam", flags, -1, L.wire, MOREVALUES, L.ps[2].Name[1], <<>>, ParamObs(L.ps[1]))
+\* the k-th parameter (k > 1): a fresh PTokParam called at the offset "morevalues" came with (V4) = its first name byte
+NthRec(flags, L, k) ==
+  IF k < L.n THEN RecAt("tokparam", flags, -1, L.ps[k].Name[1], L.wire, MOREVALUES, L.ps[k + 1].Name[1], <<>>, ParamObs(L.ps[k]))
+  ELSE RecAt("tokparam", flags, -1, L.ps[k].Name[1], L.wire, L.err, L.offs, <<>>, ParamObs(L.ps[k]))
 \* a byte that must be rejected: any error verdict, offset of the offending byte
 ErrRec(kind, flags, pcap, wire, p) ==
   [k |-> kind, cfg |-> Cfg(kind, flags, pcap), wire |-> wire, cuts |-> <<Len(wire)>>, offs |-> p,
@@ -180,13 +197,15 @@ Role(mode, x) ==
 It0(name) == Item(<<>>, name, 64, <<>>, VMissing, <<>>, <<>>, <<>>)
 ItV(name, wa, vk, val, wc) == Item(<<>>, name, 64, wa, vk, <<>>, val, wc)
 \* positions: "name"  ab X cd      "val"  n=ab X cd      "vend"  n=ab X <end>      "qend"  n="ab" X cd
+\*            "nstart" X cd        "aname" ab SP X cd    "vstart" n= X cd          "aval"  n=ab SP X cd     "asep" ab ; X cd
 \* The text around X is chosen per role so that X is the only doubtful byte (white space inside a name is
 \* followed by "=", white space after a value by the separator).
 SweepCase(mode, pos, x) ==
   LET sepc == SepOf(SweepFlags(mode))
       r == Role(mode, x)
       Acc(items, gaps, ending) == [ok |-> TRUE, L |-> GenList(sepc, items, gaps, ending)]
-      Rej(wire, p) == [ok |-> FALSE, wire |-> wire, p |-> p]
+      Rej(wire, p) == [ok |-> FALSE, skip |-> FALSE, wire |-> wire, p |-> p]
+      Skip == [ok |-> FALSE, skip |-> TRUE]
       nab == ItV(MT_n, <<>>, VToken, MT_ab, <<>>)
       nqab == ItV(MT_n, <<>>, VQuoted, MT_qab, <<>>)
   IN CASE pos = "name" ->
@@ -218,6 +237,45 @@ SweepCase(mode, pos, x) ==
              [] r = "ws"   -> Acc(<<ItV(MT_n, <<>>, VQuoted, MT_qab, <<x>>), It0(MT_cd)>>, <<0, 0, 0>>, EndInput)
              [] r = "nl"   -> Acc(<<nqab>>, <<0, 0>>, EndLone(x, MT_cd))
              [] OTHER      -> Rej(MT_n \o <<EQ>> \o MT_qab \o <<x>> \o MT_cd, 6))
+       \* X is the first byte of the list.  (X = terminator or line end: a list of no items, see slices zero / septerm)
+       [] pos = "nstart" ->
+          (CASE r = "tok"  -> Acc(<<It0(<<x>> \o MT_cd)>>, <<0, 0>>, EndInput)
+             [] r = "sep"  -> Acc(<<It0(MT_cd)>>, <<1, 0>>, EndInput)
+             [] r = "ws"   -> Acc(<<Item(<<x>>, MT_cd, 64, <<>>, VMissing, <<>>, <<>>, <<>>)>>, <<0, 0>>, EndInput)
+             [] r \in {"term", "nl"} -> Skip
+             [] OTHER      -> Rej(<<x>> \o MT_cd, 0))
+       \* name, a blank, X: a token byte there is a second token where "=", separator or terminator must follow
+       [] pos = "aname" ->
+          (CASE r = "sep"  -> Acc(<<ItV(MT_ab, <<SP>>, VMissing, <<>>, <<>>), It0(MT_cd)>>, <<0, 0, 0>>, EndInput)
+             [] r = "term" -> Acc(<<ItV(MT_ab, <<SP>>, VMissing, <<>>, <<>>)>>, <<0, 0>>, EndTerm(x, MT_cd))
+             [] r = "eq"   -> Acc(<<ItV(MT_ab, <<SP>>, VToken, MT_cd, <<>>)>>, <<0, 0>>, EndInput)
+             [] r = "ws"   -> Acc(<<ItV(MT_ab, <<SP, x>>, VToken, MT_cd, <<>>)>>, <<0, 0>>, EndInput)
+             [] r = "nl"   -> Acc(<<ItV(MT_ab, <<SP>>, VMissing, <<>>, <<>>)>>, <<0, 0>>, EndLone(x, MT_cd))
+             [] OTHER      -> Rej(MT_ab \o <<SP, x>> \o MT_cd, 3))
+       \* X is the first byte after "="  (the quote: X cd X is a quoted value)
+       [] pos = "vstart" ->
+          (CASE r = "tok"  -> Acc(<<ItV(MT_n, <<>>, VToken, <<x>> \o MT_cd, <<>>)>>, <<0, 0>>, EndInput)
+             [] r = "sep"  -> Acc(<<ItV(MT_n, <<>>, VEmpty, <<>>, <<>>), It0(MT_cd)>>, <<0, 0, 0>>, EndInput)
+             [] r = "term" -> Acc(<<ItV(MT_n, <<>>, VEmpty, <<>>, <<>>)>>, <<0, 0>>, EndTerm(x, MT_cd))
+             [] r = "quote" -> Acc(<<ItV(MT_n, <<>>, VQuoted, <<x>> \o MT_cd \o <<x>>, <<>>)>>, <<0, 0>>, EndInput)
+             [] r = "ws"   -> Acc(<<Item(<<>>, MT_n, 64, <<>>, VToken, <<x>>, MT_cd, <<>>)>>, <<0, 0>>, EndInput)
+             [] r = "nl"   -> Acc(<<ItV(MT_n, <<>>, VEmpty, <<>>, <<>>)>>, <<0, 0>>, EndLone(x, MT_cd))
+             [] OTHER      -> Rej(MT_n \o <<EQ, x>> \o MT_cd, 2))
+       \* value, a blank, X
+       [] pos = "aval" ->
+          (CASE r = "sep"  -> Acc(<<ItV(MT_n, <<>>, VToken, MT_ab, <<SP>>), It0(MT_cd)>>, <<0, 0, 0>>, EndInput)
+             [] r = "term" -> Acc(<<ItV(MT_n, <<>>, VToken, MT_ab, <<SP>>)>>, <<0, 0>>, EndTerm(x, MT_cd))
+             [] r = "ws"   -> Acc(<<ItV(MT_n, <<>>, VToken, MT_ab, <<SP, x>>), It0(MT_cd)>>, <<0, 0, 0>>, EndInput)
+             [] r = "nl"   -> Acc(<<ItV(MT_n, <<>>, VToken, MT_ab, <<SP>>)>>, <<0, 0>>, EndLone(x, MT_cd))
+             [] OTHER      -> Rej(MT_n \o <<EQ>> \o MT_ab \o <<SP, x>> \o MT_cd, 5))
+       \* X is the first byte after a separator.  (X = terminator: slice septerm)
+       [] pos = "asep" ->
+          (CASE r = "tok"  -> Acc(<<It0(MT_ab), It0(<<x>> \o MT_cd)>>, <<0, 0, 0>>, EndInput)
+             [] r = "sep"  -> Acc(<<It0(MT_ab), It0(MT_cd)>>, <<0, 1, 0>>, EndInput)
+             [] r = "ws"   -> Acc(<<It0(MT_ab), Item(<<x>>, MT_cd, 64, <<>>, VMissing, <<>>, <<>>, <<>>)>>, <<0, 0, 0>>, EndInput)
+             [] r = "nl"   -> Acc(<<It0(MT_ab)>>, <<0, 1>>, EndLone(x, MT_cd))
+             [] r = "term" -> Skip
+             [] OTHER      -> Rej(MT_ab \o <<sepc, x>> \o MT_cd, 3))
 
 P(r) == PrintT(ToJson(r))
 EmitSweep ==
@@ -227,8 +285,12 @@ EmitSweep ==
       THEN /\ GhostSane(sc.L)
            /\ P(FirstRec(fl, sc.L))
            /\ (mode # "pl" => P(ListRec(lk, fl, 8, sc.L)))
-      ELSE /\ sc.wire[sc.p + 1] = c[3]
-           /\ P(ErrRec("tokparam", fl, -1, sc.wire, sc.p))
+      ELSE sc.skip \/
+           /\ sc.wire[sc.p + 1] = c[3]
+           \* (after a separator the offending byte belongs to the NEXT parameter: one ParseTokenParam call may also
+           \*  answer "morevalues" and leave the rejection to the next call)
+           /\ P(IF c[2] = "asep" THEN [ErrRec("tokparam", fl, -1, sc.wire, sc.p) EXCEPT !.errs = <<MOREVALUES>>]
+                ELSE ErrRec("tokparam", fl, -1, sc.wire, sc.p))
            /\ (mode # "pl" => P(ErrRec(lk, fl, 8, sc.wire, sc.p)))
 
 \* ---- URIParamResolve: the six names in several letter cases, near misses, bytes that are no name bytes
@@ -240,6 +302,32 @@ EmitResolve == LET nm == ResName(c) IN
 EmitList == LET L == ListOf(c) IN
   /\ GhostSane(L)
   /\ P(IF Kind = "tokparam" THEN FirstRec(Fl(c), L) ELSE ListRec(Kind, Fl(c), Pc(c), L))
+  /\ (Kind = "tokparam" => \A k \in 2..L.n : P(NthRec(Fl(c), L, k)))
 
 Emit == CASE Part = "sweep" -> EmitSweep [] Part = "resolve" -> EmitResolve [] OTHER -> EmitList
+
+(***************************************************************************)
+(* FINDINGS (real code vs intended reading; reproduced with a Go program).  *)
+(* A  viol_zero_up / viol_zero_uh: a list without any parameter -- "", ";", *)
+(*    ";;", "; ;", also "\r\nX" -- makes ParseAllURIParams / ParseAllURIHdrs *)
+(*    report N = 1 (Types = 64 "other", Empty() = false, More() = true with *)
+(*    capacity 0) and store one all-empty parameter: ParseTokenParam answers *)
+(*    ErrHdrEOH (never the documented ErrHdrEmpty) for "no parameter" and   *)
+(*    the wrappers count every ErrHdrEOH.  "a;;b", ";a", "a;" are counted   *)
+(*    correctly (N = 2, 1, 1): empty items ARE skipped, only the list with  *)
+(*    nothing else in it is miscounted.                                     *)
+(* B  viol_septerm_*: the terminator byte is only recognised after a name   *)
+(*    or value, not where a parameter may START: "a;?h=v" (flags 64) ->     *)
+(*    ErrHdrBadChar at the "?", N = 0 (the parsed "a" is dropped as well);  *)
+(*    "?h=v" -> ErrHdrBadChar at 0; with POptTokQmTermF alone (flags 2)     *)
+(*    "a;?x" -> morevalues with the offset OF the "?" (the next call then   *)
+(*    reads "?x" as a parameter name); "a;,x" (flags 1) -> ErrHdrBadChar.   *)
+(*    The same lists ended by end of header / input are accepted.           *)
+(* C  viol_allempty_*: All of "name = <nothing>" is not a function of the   *)
+(*    parameter text: "a=;" "a =;" "a= ;" give All = "a=" "a =" "a= " (up   *)
+(*    to the separator, trailing blank included) but "a =" + end / "?" /    *)
+(*    CRLF gives All = "a" (without the "="), "a= " + end gives "a=".       *)
+(*    (Intended in that slice: from the name to the "=".)  Name and Val are *)
+(*    right in all these cases; the main slices leave All out there (V2).   *)
+(***************************************************************************)
 =============================================================================
